@@ -6,6 +6,7 @@ module documentation (not from the Lean model).
 """
 import binascii
 import datetime
+import decimal
 import re
 import struct
 
@@ -67,6 +68,9 @@ def val_wire(v):
         return 'b' + bytes(v).hex()
     if isinstance(v, datetime.datetime):
         return f't{v.year}-{v.month}-{v.day}-{v.hour}-{v.minute}-{v.second}'
+    if isinstance(v, decimal.Decimal):
+        t = v.as_tuple()
+        return f"d{t.sign}:{''.join(map(str, t.digits))}:{t.exponent}"
     raise TypeError(type(v).__name__)
 
 
@@ -173,8 +177,9 @@ def pkg_config():
     return config['bit_config']
 
 
-def gen_config(rng):
-    """a caller-supplied configuration: random bits 2..128, all field kinds, PDS carriers, ICC, PAN, dates"""
+def gen_config(rng, with_decimal=False):
+    """a caller-supplied configuration: random bits 2..128, all field kinds, PDS carriers, ICC, PAN, dates
+    (and `decimal` typed fixed elements of 3..15 characters when asked for)"""
     cfg = {}
     bits = sorted(rng.sample(range(2, 129), rng.randrange(6, 30)))
     n_pds = rng.choice([0, 1, 2, 3])
@@ -188,6 +193,8 @@ def gen_config(rng):
         elif not icc_done and r < 0.22:
             icc_done = True
             fc.update(field_type='LLLVAR', field_length=255, field_processor='ICC')
+        elif with_decimal and r < 0.40:
+            fc.update(field_type='FIXED', field_length=rng.choice([3, 6, 8, 12, 15]), field_python_type='decimal')
         elif r < 0.32:
             fc.update(field_type='LLVAR', field_length=0, field_processor=rng.choice(['PAN', 'PAN-PREFIX']))
         elif r < 0.45:
@@ -266,6 +273,14 @@ def gen_value(rng, fc, codec, length=None):
     if pyt == 'datetime':
         d = gen_datetime(rng, fc.get('field_date_format', '%y%m%d'))
         return d, d
+    if pyt == 'decimal':
+        w = fc['field_length']
+        while True:
+            frac = rng.randrange(0, w - 1)
+            s = text(rng, codec, w - frac - (1 if frac else 0), 'digits') + ('.' + text(rng, codec, frac, 'digits') if frac else '')
+            v = decimal.Decimal(s)
+            if format(v, f'0{w}f') == s:
+                return v, v
     if ft not in ('LLVAR', 'LLLVAR'):
         t = text(rng, codec, fc['field_length'])
         return t, t
@@ -383,6 +398,8 @@ def ref_render(fc, v, codec):
     else:
         if pyt in ('int', 'long'):
             s = str(v).rjust(fc['field_length'], '0')
+        elif pyt == 'decimal':
+            s = format(v, f"0{fc['field_length']}f")
         elif pyt == 'datetime':
             s = v.strftime(fc.get('field_date_format', '%y%m%d'))
         else:
@@ -541,9 +558,11 @@ def ref_decode(data, cfg, codec, hex_bitmap, strict_numerals=True):
         try:
             if pyt in ('int', 'long'):
                 v = int(v)
+            elif pyt == 'decimal':
+                v = decimal.Decimal(v)
             elif pyt == 'datetime':
                 v = datetime.datetime.strptime(v, fc.get('field_date_format', '%y%m%d'))
-        except ValueError:
+        except (ValueError, decimal.InvalidOperation):
             raise RefError(f'element {bit} not convertible')
         out[f'DE{bit}'] = v
         if proc == 'PDS':
